@@ -12,3 +12,17 @@ package softspoken
 //@   uses reader
 //@   ensures err == nil ==> bytesEq(sigmaBits, squeeze(old(shk(r.prng)), SigmaBytes)) && len(sigmaBits) == SigmaBytes
 //@   ensures r.prng == old(r.prng)
+
+// Consistency check of the extension (C09): the sender accepts only if the check q^i == t^i + Delta_i * x holds for
+// EVERY one of the Kappa rows i (row i uses bit i of the sender's base-OT choices to select t^i or t^i + x, and
+// q^i accumulated over all m challenge blocks); ok[i] records the outcome of row i.
+//@ func (*Sender).verifyChallenge
+//@   property C09, C04
+//@   ghostvar ok map[int]bool
+//@   ensures result == nil ==> forall r int :: 0 <= r && r < Kappa ==> ok[r]
+//@   loop range(Kappa)
+//@     invariant isCorrect ==> forall r int :: 0 <= r && r < $i ==> ok[r]
+//@   loop range(m)
+//@     invariant true
+//@   assert before "isCorrect = isCorrect && qiExpected.Equal(qi)": qiExpected == bf128.NewField().Select(choice, t, t.Add(x)) && choice == (s.receiverSeeds.Choices[i/8] / pow2(i%8)) % 2
+//@   ghostset before "isCorrect = isCorrect && qiExpected.Equal(qi)": ok[$i] = qiExpected.Equal(qi)
